@@ -122,3 +122,22 @@ PROPS["C04"] = {
         {"test": "^TestResponderConcurrent$", "checks": 400, "shards": 8, "race": True, "timeout": 900},
     ],
 }
+
+PROPS["C03"] = {
+    "pkg": "c03",
+    "technique": "property-based testing through the public interceptor against a set-based reference model; tick boundaries made observable by a sentinel stream (schedule-independent oracle)",
+    "level_text": "Generated arrival histories over several SSRCs, window sizes 64..32768, skipLastN and per-packet limits are fed through BindRemoteStream with a real "
+                  "250 us ticker; at each observation only NACKs of ticks that provably ran on the quiescent state (delimited by fresh gaps on a sentinel stream) "
+                  "are compared with Missing = {after first, within window behind highest-skipLastN, not received}; the per-number limit is counted over the whole run. Exploration.",
+    "level_note": "trusts: the set model; forward steps of exactly 2^15 are not generated (tie undefined); between two observations a stream advances < 30000 so that "
+                  "requests can be attributed to unwrapped numbers; with a limit L only 'subset of Missing, at most L times, at least once' is asserted",
+    "assumptions": ["a forward step of exactly 2^15 is not generated", "NACK writes never fail"],
+    "quick": [
+        {"test": "^TestRegress", "timeout": 120},
+        {"test": "^TestGeneratorRequestsExactlyMissing$", "checks": 250, "shards": 6, "timeout": 400},
+    ],
+    "thorough": [
+        {"test": "^TestRegress", "timeout": 120},
+        {"test": "^TestGeneratorRequestsExactlyMissing$", "checks": 2500, "shards": 15, "timeout": 1500},
+    ],
+}
